@@ -47,6 +47,12 @@ const NestContract = `access(all) contract N {
     return a.length.toString().concat("/").concat(sum.toString())
   }
   access(all) fun keys(): [String] { return ["k0", "k1", "k2", "k3"] }
+  access(all) fun mkMap(_ from: Int, _ n: Int): {Int: Int} {
+    var m: {Int: Int} = {}
+    var i = 0
+    while i < n { m[from + i] = from + i + 1; i = i + 1 }
+    return m
+  }
   access(all) fun fail(_ m: String) { panic(m) }
 
   access(all) struct Leaf {
@@ -82,12 +88,17 @@ const NestContract = `access(all) contract N {
     access(all) var optLeaf: Leaf?
     access(all) var optStr: String?
     access(all) var optArr: [Int]?
+    access(mapping Identity) var grid: [[Int]]
+    access(mapping Identity) var ogrid: [[Int]?]
+    access(mapping Identity) var deep: [[[Int]]]
+    access(mapping Identity) var maps: {String: {Int: Int}}
     access(mapping Identity) var kids: @{Int: Box}
     access(mapping Identity) var list: @[Box]
     access(mapping Identity) var opt: @Box?
     init(_ id: Int, _ n: Int) {
       self.id = id; self.arr = N.range(id, n); self.strs = []; self.dict = {}
       self.leaf = Leaf(id, 0); self.optLeaf = nil; self.optStr = nil; self.optArr = nil
+      self.grid = []; self.ogrid = []; self.deep = []; self.maps = {}
       self.kids <- {}; self.list <- []; self.opt <- nil
     }
     access(all) fun setArr(_ a: [Int]) { self.arr = a }
@@ -106,6 +117,10 @@ const NestContract = `access(all) contract N {
     access(all) fun leafDropName(_ k: String) { self.leaf.dropName(k) }
     access(all) fun setOptLeaf(_ l: Leaf?) { self.optLeaf = l }
     access(all) fun optLeafGrow(_ n: Int) { self.optLeaf!.grow(n) }
+    access(all) fun gridInnerSet(_ i: Int, _ j: Int, _ v: Int) { self.grid[i][j] = v }
+    access(all) fun deepInnerSet(_ i: Int, _ a: [Int]) { self.deep[i][0] = a }
+    access(all) fun swapList(_ i: Int, _ b: @Box) { let old <- self.list.remove(at: i); self.list.insert(at: i, <- b); destroy old }
+    access(all) fun forceKid(_ k: Int, _ b: @Box) { let old <- self.kids.remove(key: k); destroy old; self.kids[k] <-! b }
     access(all) fun setOptStr(_ s: String?) { self.optStr = s }
     access(all) fun setOptArr(_ a: [Int]?) { self.optArr = a }
     access(all) fun putKid(_ k: Int, _ b: @Box) { let old <- self.kids[k] <- b; destroy old }
@@ -132,7 +147,15 @@ const NestContract = `access(all) contract N {
       if let x = self.optStr { s = s.concat(x.length.toString()) } else { s = s.concat("-") }
       s = s.concat(" R:")
       if let x = self.optArr { s = s.concat(N.da(x)) } else { s = s.concat("-") }
-      s = s.concat(" A:")
+      s = s.concat(" G:[")
+      for g in self.grid { s = s.concat(N.da(g)).concat(",") }
+      s = s.concat("] OG:[")
+      for g in self.ogrid { if let x = g { s = s.concat(N.da(x)) } else { s = s.concat("-") }; s = s.concat(",") }
+      s = s.concat("] DD:[")
+      for g in self.deep { s = s.concat("["); for x in g { s = s.concat(N.da(x)).concat(",") }; s = s.concat("],") }
+      s = s.concat("] M:{")
+      for k in N.keys() { if let m = self.maps[k] { var t = 0; for kk in m.keys { t = t + kk + m[kk]! }; s = s.concat(k).concat(":").concat(m.length.toString()).concat("/").concat(t.toString()).concat(",") } }
+      s = s.concat("} A:")
       if let a = self[Att] { s = s.concat(a.d()) } else { s = s.concat("-") }
       return s.concat("]")
     }
@@ -240,6 +263,10 @@ type NBox struct {
 	OptStr  int   // length of the optional string field, -1 = nil
 	OptArr  []int // optional array field
 	HasArr  bool
+	Grid    [][]int
+	OGrid   []*[]int          // nil entry = nil element
+	Deep    [][][]int
+	Maps    map[string][2]int // key -> (from, count) of N.mkMap
 	Kids    map[int]*NBox
 	List    []*NBox
 	Opt     *NBox
@@ -248,7 +275,7 @@ type NBox struct {
 }
 
 func newBox(id, n int) *NBox {
-	return &NBox{ID: id, Arr: rng(id, n), Dict: map[string][]int{}, Leaf: newLeaf(id, 0), Kids: map[int]*NBox{}, OptStr: -1}
+	return &NBox{ID: id, Arr: rng(id, n), Dict: map[string][]int{}, Leaf: newLeaf(id, 0), Kids: map[int]*NBox{}, OptStr: -1, Maps: map[string][2]int{}}
 }
 
 func (b *NBox) clone() *NBox {
@@ -259,6 +286,28 @@ func (b *NBox) clone() *NBox {
 		Leaf: b.Leaf.clone(), OptLeaf: b.OptLeaf.clone(), OptStr: b.OptStr, OptArr: append([]int(nil), b.OptArr...), HasArr: b.HasArr, Kids: map[int]*NBox{}, Opt: b.Opt.clone(), HasAtt: b.HasAtt, Att: append([]int(nil), b.Att...)}
 	for k, v := range b.Dict {
 		c.Dict[k] = append([]int(nil), v...)
+	}
+	c.Maps = map[string][2]int{}
+	for k, v := range b.Maps {
+		c.Maps[k] = v
+	}
+	for _, g := range b.Grid {
+		c.Grid = append(c.Grid, append([]int(nil), g...))
+	}
+	for _, g := range b.OGrid {
+		if g == nil {
+			c.OGrid = append(c.OGrid, nil)
+		} else {
+			cp := append([]int(nil), (*g)...)
+			c.OGrid = append(c.OGrid, &cp)
+		}
+	}
+	for _, g := range b.Deep {
+		var cg [][]int
+		for _, x := range g {
+			cg = append(cg, append([]int(nil), x...))
+		}
+		c.Deep = append(c.Deep, cg)
 	}
 	for k, v := range b.Kids {
 		c.Kids[k] = v.clone()
@@ -314,7 +363,34 @@ func (b *NBox) desc() string {
 	} else {
 		s += "-"
 	}
-	s += " A:"
+	s += " G:["
+	for _, g := range b.Grid {
+		s += da(g) + ","
+	}
+	s += "] OG:["
+	for _, g := range b.OGrid {
+		if g == nil {
+			s += "-,"
+		} else {
+			s += da(*g) + ","
+		}
+	}
+	s += "] DD:["
+	for _, g := range b.Deep {
+		s += "["
+		for _, x := range g {
+			s += da(x) + ","
+		}
+		s += "],"
+	}
+	s += "] M:{"
+	for k := 0; k < NestDictKeys; k++ {
+		if v, ok := b.Maps[nestKey(k)]; ok {
+			from, n := v[0], v[1]
+			s += fmt.Sprintf("%s:%d/%d,", nestKey(k), n, 2*(n*from+n*(n-1)/2)+n)
+		}
+	}
+	s += "} A:"
 	if b.HasAtt {
 		s += da(b.Att)
 	} else {
@@ -333,6 +409,28 @@ func (b *NBox) slabby() bool {
 	}
 	for _, l := range b.Strs {
 		if l >= 600 {
+			return true
+		}
+	}
+	for _, g := range b.Grid {
+		if len(g) >= bigLen {
+			return true
+		}
+	}
+	for _, g := range b.OGrid {
+		if g != nil && len(*g) >= bigLen {
+			return true
+		}
+	}
+	for _, g := range b.Deep {
+		for _, x := range g {
+			if len(x) >= bigLen {
+				return true
+			}
+		}
+	}
+	for _, v := range b.Maps {
+		if v[1] >= 40 {
 			return true
 		}
 	}
@@ -518,7 +616,7 @@ func (o NestOp) String() string {
 	case "ctrAdd", "ctrUpdate", "ctrRemove":
 		return fmt.Sprintf("%s a%d %s n=%d", o.Kind, o.A, NestContractName(o.K), o.N)
 	}
-	return fmt.Sprintf("%s %s k=%d n=%d mode=%d id=%d", o.Kind, o.Box, o.K, o.N, o.Mode, o.ID)
+	return fmt.Sprintf("%s %s k=%d k2=%d n=%d mode=%d id=%d", o.Kind, o.Box, o.K, o.K2, o.N, o.Mode, o.ID)
 }
 
 type NestExec struct {
@@ -539,6 +637,8 @@ type NestFacts struct {
 	RemovedSlabby int // operations that removed / overwrote / destroyed / moved a non-inlined nested container
 	Removals      int
 	Moves         int
+	// OverwroteMultiSlab: an index/key assignment replaced a container that spans several slabs
+	OverwroteMultiSlab int
 	// AddThenRemove: a contract was added and removed again in the same transaction
 	AddThenRemove bool
 	added         map[[2]int]bool
@@ -817,6 +917,97 @@ func (m *NestModel) Apply(o NestOp, f *NestFacts) (ok bool) {
 			return false
 		}
 		b.OptLeaf.Data = append(b.OptLeaf.Data, rng(len(b.OptLeaf.Data), o.N)...)
+	case "gridPush":
+		b.Grid = append(b.Grid, rng(o.K, o.N))
+	case "gridSet": // index assignment over an old (possibly multi-slab) inner array
+		if o.K2 >= len(b.Grid) {
+			return false
+		}
+		rm(len(b.Grid[o.K2]) >= bigLen)
+		if len(b.Grid[o.K2]) >= 300 {
+			f.OverwroteMultiSlab++
+		}
+		b.Grid[o.K2] = rng(o.K, o.N)
+	case "gridInnerSet":
+		if o.K2 >= len(b.Grid) || o.Mode >= len(b.Grid[o.K2]) {
+			return false
+		}
+		b.Grid[o.K2][o.Mode] = o.K
+	case "gridDrop":
+		if o.K2 >= len(b.Grid) {
+			return false
+		}
+		rm(len(b.Grid[o.K2]) >= bigLen)
+		b.Grid = append(b.Grid[:o.K2:o.K2], b.Grid[o.K2+1:]...)
+	case "ogridPush":
+		if o.N < 0 {
+			b.OGrid = append(b.OGrid, nil)
+		} else {
+			v := rng(o.K, o.N)
+			b.OGrid = append(b.OGrid, &v)
+		}
+	case "ogridSet":
+		if o.K2 >= len(b.OGrid) {
+			return false
+		}
+		if old := b.OGrid[o.K2]; old != nil {
+			rm(len(*old) >= bigLen)
+			if len(*old) >= 300 {
+				f.OverwroteMultiSlab++
+			}
+		}
+		if o.N < 0 {
+			b.OGrid[o.K2] = nil
+		} else {
+			v := rng(o.K, o.N)
+			b.OGrid[o.K2] = &v
+		}
+	case "deepPush":
+		b.Deep = append(b.Deep, [][]int{rng(o.K, o.N), rng(o.K+1, o.N)})
+	case "deepSet":
+		if o.K2 >= len(b.Deep) {
+			return false
+		}
+		rm(len(b.Deep[o.K2][0]) >= bigLen || len(b.Deep[o.K2][1]) >= bigLen)
+		if len(b.Deep[o.K2][1]) >= bigLen {
+			f.OverwroteMultiSlab++
+		}
+		b.Deep[o.K2] = [][]int{rng(o.K, o.N), rng(o.K+1, o.N)}
+	case "deepInnerSet":
+		if o.K2 >= len(b.Deep) {
+			return false
+		}
+		rm(len(b.Deep[o.K2][0]) >= bigLen)
+		if len(b.Deep[o.K2][0]) >= 300 {
+			f.OverwroteMultiSlab++
+		}
+		b.Deep[o.K2][0] = rng(o.K, o.N)
+	case "mapsPut":
+		if old, ok := b.Maps[nestKey(o.K2)]; ok {
+			rm(old[1] >= 40)
+			if old[1] >= 100 {
+				f.OverwroteMultiSlab++
+			}
+		}
+		b.Maps[nestKey(o.K2)] = [2]int{o.K, o.N}
+	case "mapsDrop":
+		old, ok := b.Maps[nestKey(o.K2)]
+		if !ok {
+			return false
+		}
+		rm(old[1] >= 40)
+		delete(b.Maps, nestKey(o.K2))
+	case "listSwap":
+		if o.K >= len(b.List) {
+			return false
+		}
+		rm(b.List[o.K].slabby())
+		b.List[o.K] = newBox(o.ID, o.N)
+	case "kidForce":
+		if old, ok := b.Kids[o.K]; ok {
+			rm(old.slabby())
+		}
+		b.Kids[o.K] = newBox(o.ID, o.N)
 	case "optStrSet":
 		if b.OptStr >= 0 {
 			rm(b.OptStr >= 600)
@@ -1139,6 +1330,40 @@ func renderNestOp(i int, o NestOp) (lines []string) {
 		w(`%s.setOptLeaf(nil)`, r)
 	case "optLeafGrow":
 		w(`%s.optLeafGrow(%d)`, r, o.N)
+	case "gridPush":
+		w(`%s.grid.append(N.range(%d, %d))`, r, o.K, o.N)
+	case "gridSet":
+		w(`%s.grid[%d] = N.range(%d, %d)`, r, o.K2, o.K, o.N)
+	case "gridInnerSet":
+		w(`%s.gridInnerSet(%d, %d, %d)`, r, o.K2, o.Mode, o.K)
+	case "gridDrop":
+		w(`%s.grid.remove(at: %d)`, r, o.K2)
+	case "ogridPush":
+		if o.N < 0 {
+			w(`%s.ogrid.append(nil)`, r)
+		} else {
+			w(`%s.ogrid.append(N.range(%d, %d))`, r, o.K, o.N)
+		}
+	case "ogridSet":
+		if o.N < 0 {
+			w(`%s.ogrid[%d] = nil`, r, o.K2)
+		} else {
+			w(`%s.ogrid[%d] = N.range(%d, %d)`, r, o.K2, o.K, o.N)
+		}
+	case "deepPush":
+		w(`%s.deep.append([N.range(%d, %d), N.range(%d, %d)])`, r, o.K, o.N, o.K+1, o.N)
+	case "deepSet":
+		w(`%s.deep[%d] = [N.range(%d, %d), N.range(%d, %d)]`, r, o.K2, o.K, o.N, o.K+1, o.N)
+	case "deepInnerSet":
+		w(`%s.deepInnerSet(%d, N.range(%d, %d))`, r, o.K2, o.K, o.N)
+	case "mapsPut":
+		w(`%s.maps["%s"] = N.mkMap(%d, %d)`, r, nestKey(o.K2), o.K, o.N)
+	case "mapsDrop":
+		w(`%s.maps.remove(key: "%s")`, r, nestKey(o.K2))
+	case "listSwap":
+		w(`%s.swapList(%d, <- N.mk(%d, %d))`, r, o.K, o.ID, o.N)
+	case "kidForce":
+		w(`%s.forceKid(%d, <- N.mk(%d, %d))`, r, o.K, o.ID, o.N)
 	case "optStrSet":
 		w(`%s.setOptStr(N.str(%d, %d))`, r, i, o.N)
 	case "optStrClear":
@@ -1225,9 +1450,12 @@ type NestGenConfig struct {
 	Injections bool
 }
 
-var nestSizes = []int{0, 3, 150, 1, 400, 8, 125}
+var nestSizes = []int{0, 3, 150, 1, 400, 8, 125, 1000}
 
 func genSize(s Src) int { return nestSizes[s.Intn("size", len(nestSizes))] }
+
+// bigSize prefers sizes that span several slabs (the containers later operations overwrite).
+func bigSize(s Src) int { return []int{1000, 400, 3, 300, 150}[s.Intn("bigsize", 5)] }
 
 var nestStrSizes = []int{3, 700, 40, 300}
 
@@ -1299,6 +1527,7 @@ var nestOpKinds = []string{
 	"attach", "attAdd", "detach", "dropLeaf", "copyLeaf", "growStoredLeaf", "nameStoredLeaf",
 	"ctrAdd", "ctrRemove", "ctrUpdate",
 	"optStrSet", "optStrClear", "optArrSet", "optArrClear",
+	"gridPush", "gridSet", "gridInnerSet", "gridDrop", "ogridPush", "ogridSet", "deepPush", "deepSet", "deepInnerSet", "mapsPut", "mapsDrop", "listSwap", "kidForce",
 }
 
 // nestOpWeights: growth 2, in-place change 2, removal / overwrite / move 4.
@@ -1306,7 +1535,8 @@ var nestOpWeights = func() []int {
 	heavy := map[string]bool{"arrDrop": true, "arrSet": true, "strDrop": true, "strSet": true, "dictDrop": true, "leafShrink": true, "leafDropName": true,
 		"optLeafClear": true, "kidDrop": true, "kidDropDirect": true, "listDrop": true, "optClear": true, "moveKid": true, "listToKid": true, "optToKid": true,
 		"kidToTop": true, "topToKid": true, "moveTop": true, "destroyTop": true, "detach": true, "dropLeaf": true, "ctrRemove": true, "optStrClear": true, "optArrClear": true,
-		"kidPutDirect": true, "leafSet": true}
+		"kidPutDirect": true, "leafSet": true, "gridSet": true, "gridDrop": true, "ogridSet": true, "deepSet": true, "deepInnerSet": true, "mapsPut": true, "mapsDrop": true, "listSwap": true, "kidForce": true,
+		"gridPush": true, "ogridPush": true, "deepPush": true}
 	w := make([]int, len(nestOpKinds))
 	for i, k := range nestOpKinds {
 		w[i] = 2
@@ -1459,6 +1689,69 @@ func genNestOp(s Src, m *NestModel, focus *NestOp) (NestOp, bool) {
 	case "arrAppend", "arrSet", "leafSet", "leafGrow", "optLeafSet":
 		o.Box, _, ok = pickBox("box", nil)
 		o.K, o.N = s.Intn("from", 50), genSize(s)
+		return o, ok
+	case "gridPush", "ogridPush", "deepPush":
+		o.Box, _, ok = pickBox("box", nil)
+		o.K, o.N = s.Intn("from", 50), bigSize(s)
+		if kind == "deepPush" && o.N > 400 {
+			o.N = 400
+		}
+		if kind == "ogridPush" && chance(s, "nilelem", 15) {
+			o.N = -1
+		}
+		return o, ok
+	case "gridSet", "gridDrop", "gridInnerSet":
+		o.Box, b, ok = pickBox("box", func(_ Sel, b *NBox) bool { return len(b.Grid) > 0 })
+		if ok {
+			o.K2, o.K, o.N = s.Intn("index", len(b.Grid)), s.Intn("from", 50), genSize(s)
+			if kind == "gridInnerSet" {
+				if len(b.Grid[o.K2]) == 0 {
+					return o, false
+				}
+				o.Mode = s.Intn("inner", len(b.Grid[o.K2]))
+			}
+		}
+		return o, ok
+	case "ogridSet":
+		o.Box, b, ok = pickBox("box", func(_ Sel, b *NBox) bool { return len(b.OGrid) > 0 })
+		if ok {
+			o.K2, o.K, o.N = s.Intn("index", len(b.OGrid)), s.Intn("from", 50), genSize(s)
+			if chance(s, "nilelem", 25) {
+				o.N = -1
+			}
+		}
+		return o, ok
+	case "deepSet", "deepInnerSet":
+		o.Box, b, ok = pickBox("box", func(_ Sel, b *NBox) bool { return len(b.Deep) > 0 })
+		if ok {
+			o.K2, o.K, o.N = s.Intn("index", len(b.Deep)), s.Intn("from", 50), min(genSize(s), 400)
+		}
+		return o, ok
+	case "mapsPut":
+		o.Box, _, ok = pickBox("box", nil)
+		o.K2, o.K, o.N = s.Intn("key", NestDictKeys), s.Intn("from", 50), []int{120, 3, 200, 0, 40}[s.Intn("mapsize", 5)]
+		return o, ok
+	case "mapsDrop":
+		o.Box, b, ok = pickBox("box", func(_ Sel, b *NBox) bool { return len(b.Maps) > 0 })
+		if ok {
+			var ks []int
+			for k := 0; k < NestDictKeys; k++ {
+				if _, has := b.Maps[nestKey(k)]; has {
+					ks = append(ks, k)
+				}
+			}
+			o.K2 = ks[s.Intn("key", len(ks))]
+		}
+		return o, ok
+	case "listSwap":
+		o.Box, b, ok = pickBox("box", func(_ Sel, b *NBox) bool { return len(b.List) > 0 })
+		if ok {
+			o.K, o.ID, o.N = s.Intn("index", len(b.List)), m.nextID(), genSize(s)
+		}
+		return o, ok
+	case "kidForce":
+		o.Box, _, ok = pickBox("box", canNest)
+		o.K, o.ID, o.N = s.Intn("key", NestKidKeys), m.nextID(), genSize(s)
 		return o, ok
 	case "optStrSet":
 		o.Box, _, ok = pickBox("box", nil)
